@@ -19,6 +19,9 @@ C06-amount-second-sign, C06-amount-int64-wrap, C06-minint64-roundtrip of finding
 "known" to "fixed" (add the commit).  Nothing else: PATCHED is derived from that (see patched()),
 the correspondence then runs against the model of the repaired code (the one the theorems of
 Props/C06.v are about) and every witness in corpus/C06/*.case becomes a VIOLATION if it regresses.
+Likewise, once unquote decodes JSON escapes (finding C06-json-escaped-string, patch proposed by C08:
+fixes/C08-amount-json-escapes.diff) move that entry to "fixed": tokens with escapes are then judged by
+oracle P only (the model's unquote does not decode escapes).
 """
 import glob
 import json as pyjson
@@ -483,6 +486,14 @@ def judge_all(R, stream, s, enc, gline, mline, light=False):
                 if k in (3, 4, 5) and pct_out_of_float_domain(gi[k], mi[k]):
                     c.count("out-of-float-domain percentage (informational)", 1)
                     continue
+                if k in (1, 2, 4, 5) and R.esc_fixed:
+                    raw = s if k in (1, 4) else b'"' + s + b'"'
+                    jv = json_value(raw) if b"\\" in raw else None
+                    if jv is not None and jv[0] == "string":
+                        # once C06-json-escaped-string is fixed the code decodes JSON escapes; the model's unquote
+                        # (Num/Codec.v) only strips the quotes, so such tokens are judged by oracle P alone
+                        c.count("JSON string with escapes (oracle P only)", 1)
+                        continue
                 R.mismatch(stream, line, gline, mline)
                 break
     if len(gi) != 8:
@@ -553,6 +564,7 @@ def run(c):
         return
     R = Run(c)
     R.fixed = patched(c)
+    R.esc_fixed = c.known(F_ESC) is None
     c.cov["model_compared"] = "repaired code (parse_amount_fixed / print_amount_fixed)" if R.fixed else \
         "code as shipped (parse_amount / print_amount); repair entries still under 'known' in findings/C06.json"
 
